@@ -169,6 +169,21 @@ def replay(ob):
     w = ob.witness or {}
     if "sg" in w:
         groups = [w["sg"]] + groups
+    # one analyzer used for several crystals in turn: nothing of the previous crystal may survive set_system
+    try:
+        a = tr.analyze(tr.pinned_probe(1, npin=2))
+        a.get_is_chiral()
+        for sg in (2, 14, 62, 4, 19):
+            a.set_system(tr.pinned_probe(sg, npin=2))
+            if int(a.get_space_group_number()) == sg and bool(a.get_is_chiral()) != tabvc.is_sohncke(sg):
+                bad.append({"sg": sg, "presentation": "analysed with an analyzer that had analysed another crystal before (set_system)", "get_is_chiral": bool(a.get_is_chiral()),
+                            "sohncke": tabvc.is_sohncke(sg)})
+            elif int(a.get_space_group_number()) != sg:
+                bad.append({"sg": sg, "presentation": "set_system on a used analyzer", "observed": "space group %d reported" % int(a.get_space_group_number())})
+    except Exception as e:  # noqa
+        bad.append(("set_system", "%s: %s" % (type(e).__name__, e)))
+    if bad:
+        return {"reproduced": True, "failing_inputs": bad[:3]}
     # supercells whose lattice is not invariant under the whole point group (the operations spglib lists for such a cell are a sub-list)
     from ase.build import make_supercell
     for sg in ([w["sg"]] if "sg" in w else []) + [81, 6, 111, 156, 174, 75, 143, 25]:
